@@ -289,7 +289,8 @@ class C16(Check):
             '(external level 4 too) x (caller file object, path, filesystem + path) x closefd (default, True, False) x every handle kind incl. nested '
             'readers\' handles and the in-memory .code-decompressed x orders {reader close then tell then read; reader close then '
             'read; every handle read twice (caches warm) then reader close then read; handle close then sibling use then reader use; '
-            'double closes; nested reader close}; random longer interleavings '
+            'double closes; nested reader close}; constructors that RAISE (garbage, truncated input, no key material for the engine) on a '
+            'caller-supplied file object x closefd; random longer interleavings '
             'on top; observables: ValueError or not per call, closed flag of the file; non-trivial = always')
     trusted_base = [
         'Lean 4.33 kernel; axioms propext, Classical.choice, Quot.sound only',
@@ -309,6 +310,10 @@ class C16(Check):
             for cfd in (None, True, False):
                 for tail in ('wrap-close', 'wrap-inner-first', 'wrap-double'):
                     yield {'kind': 'wrapper', 'flavour': flavour, 'src': 'obj', 'cfd': cfd, 'sites': [], 'tail': tail, 'q': []}
+        for kind in ('romfs', 'exefs', 'ncch-plain', 'ncch-split', 'cia', 'cci', 'diff', 'disa'):
+            for how in ('garbage', 'truncated', 'nokeys'):
+                for cfd in (None, False, True):
+                    yield {'kind': kind, 'how': how, 'cfd': cfd, 'tail': 'ctorfail', 'src': 'obj', 'sites': [], 'q': []}
         for kind in KINDS:
             srcs = ['path'] if kind in DIR_KINDS else ['obj', 'path', 'fs']
             cfds = [None] if kind in DIR_KINDS else [None, True, False]
@@ -326,6 +331,59 @@ class C16(Check):
                     yield {'kind': kind, 'src': src, 'cfd': cfd, 'sites': sites, 'tail': 'warm-reader-read-tell', 'q': q}
                     for suffix in KINDS[kind][2]:
                         yield {'kind': kind, 'src': src, 'cfd': cfd, 'sites': sites, 'tail': 'nested:' + suffix, 'q': q}
+
+    def run_ctorfail(self, case):
+        """the constructor RAISES (input it rejects, or no key material for the engine it would create): a caller-supplied file
+        object must still be open and usable afterwards unless closefd was requested"""
+        from pyctr.type.romfs import RomFSReader
+        from pyctr.type.exefs import ExeFSReader
+        from pyctr.type.ncch import NCCHReader
+        from pyctr.type.cia import CIAReader
+        from pyctr.type.cci import CCIReader
+        from pyctr.type.save.diff import DIFF
+        from pyctr.type.save.disa import DISA
+        kind, how, cfd = case['kind'], case['how'], case['cfd']
+        e = envsetup.install()
+        fx = fixture(KINDS[kind][0])
+        data = bytearray(fx[0] if isinstance(fx, tuple) else fx)
+        cls = {'romfs': RomFSReader, 'exefs': ExeFSReader, 'ncch-plain': NCCHReader, 'ncch-split': NCCHReader,
+               'ncch-simple': NCCHReader, 'cia': CIAReader, 'cci': CCIReader, 'diff': DIFF, 'disa': DISA}[kind]
+        if how == 'garbage':
+            data = bytearray(b'\x5A' * len(data))
+        elif how == 'truncated':
+            data = data[:0x40]
+        f = io.BytesIO(bytes(data))
+        kw = {} if cfd is None else {'closefd': cfd}
+        saved = dict(e._b9_keyblob)
+        try:
+            if how == 'nokeys':
+                e._b9_keyblob.clear()
+                e.b9_blobs_loaded = False
+            try:
+                r = cls(f, **kw)
+                out = 'constructed'
+                r.close()
+            except Exception as ex:  # noqa
+                out = 'e:' + exc_name(ex)
+        finally:
+            e._b9_keyblob.update(saved)
+            envsetup.install()
+        closed = f.closed
+        usable = False
+        if not closed:
+            try:
+                f.seek(0)
+                f.read(1)
+                usable = True
+            except Exception:  # noqa
+                pass
+        real = f'{out} closed={closed} usable={usable}'
+        mon = []
+        if out.startswith('e:') and cfd is not True and (closed or not usable):
+            mon.append(f'{kind}: the constructor raised {out[2:]} ({how}) and the caller\'s file object (closefd={cfd}) is '
+                       f'{"closed" if closed else "unusable"} afterwards')
+        exp = real if not mon else f'{out} closed=False usable=True'
+        return CaseResult(real, exp, mon, f'ctorfail:{kind}:{how}:{cfd}', None, {f'ctor fails:{how}': 1, f'kind:{kind}': 1})
 
     def gen(self, rng, tier, i, kind=None):
         kind = kind or rng.pick(list(KINDS))
@@ -390,6 +448,8 @@ class C16(Check):
 
     def run_case(self, case, drv):
         envsetup.install()
+        if case.get('tail') == 'ctorfail':
+            return self.run_ctorfail(case)
         ops = self.script(case)
         tmp = tempfile.mkdtemp(prefix='pyctr-verif-c16-')
         try:
